@@ -68,6 +68,31 @@ pub fn dispatch(kind: &str, a: &[&str]) -> Option<String> {
                 Err(_) => "ERR".to_string(),
             }
         }
+        // per-function scanners through the hooks; `pad` bytes of left padding shift the alignment
+        ("tt.split", [h]) => {
+            let d = unhex(h);
+            let (a, b) = jomini::text::tape_verif_hooks::split_at_scalar(&d);
+            format!("{} {}", hex(a), hex(b))
+        }
+        ("tt.split_fb", [h]) => {
+            let d = unhex(h);
+            let (a, b) = jomini::text::tape_verif_hooks::split_at_scalar_fallback(&d);
+            format!("{} {}", hex(a), hex(b))
+        }
+        ("tt.quote", [h]) => {
+            let d = unhex(h);
+            match jomini::text::tape_verif_hooks::parse_quote_scalar(&d) {
+                Some((a, b)) => format!("{} {}", hex(a), hex(b)),
+                None => "ERR".to_string(),
+            }
+        }
+        ("tt.quote_fb", [h]) => {
+            let d = unhex(h);
+            match jomini::text::tape_verif_hooks::parse_quote_scalar_fallback(&d) {
+                Some((a, b)) => format!("{} {}", hex(a), hex(b)),
+                None => "ERR".to_string(),
+            }
+        }
         _ => return None,
     };
     Some(r)
